@@ -369,7 +369,7 @@ def check(desc, col):
             parts.append("res-rel")
         elif res_cols and a:
             parts.append("res-abs")
-        tolclass = "tol:" + "+".join(parts)
+        tolclass = "tol:" + ("+".join(parts) if parts else "zero-effective")
     dropped = n - len(kept)
     nontrivial = ngroups >= 2 and res_vary and dropped >= 1 and len(kept) >= 2
     labels = [tolclass, f"entry:{desc['entry']}",
